@@ -42,6 +42,13 @@ def gen_scenario(seed):
                 # agent is about to edit, then the edit, then the agent's own checkpoint
                 steps.append({"op": "human_checkpoint", "paths": [path]})
                 pending_human = False
+                others = [n for n in names if n != path]
+                if others and rng.chance(1, 6):
+                    # while the agent is at work the person types in another file
+                    other = rng.pick(others)
+                    k2 = S.gen_edit(rng, w, other, "human", style)
+                    steps.append({"op": "edit", "who": "human", "path": other, "kind": k2 + "/during-agent-run",
+                                  "lines": [list(l) for l in w.files[other]]})
             kind = S.gen_edit(rng, w, path, who, style)
             steps.append({"op": "edit", "who": who, "path": path, "kind": kind, "lines": [list(l) for l in w.files[path]]})
             if who == "human":
